@@ -57,6 +57,12 @@ func buildC06(tier string, seed int64) *Family {
 	tpls = append(tpls, "N1 : N2 [ N1 : N3 ]", "p : N1", "N : N1", "p : N1 / q : N2", "N1 P1 N2", "P1 N1", "N1 P1", "P1 P2", "D1 P1 D2", "S1 P1", "N1 W1 P1 W2 N2", "( P1 )", "N1 [ P1 ]",
 		"$ N1 + D1", "$ N1 | N2", "N1 [ $ N2 w1 and w2 N3 ]", "N9 ( ) * D1", "namespace :: N1 | N2", "$ N1 = D1", "D1 + $ N1", "N9 ( ) | N1", "$ N1 / N2 | N3", "- $ N1",
 		"N1 [ N9 ( ) or N2 ]", "count ( $ N1 ) + D1", "( $ N1 ) | N2", "N1 | $ N2",
+		// constant regular expressions: valid, invalid, symbolic
+		"matches ( N1 , '[' )", "matches ( N1 , 'a(' )", "replace ( N1 , '(' , 'x' )", "replace ( N1 , 'a)' , S1 )", "matches ( N1 , S1 )", "replace ( N1 , S1 , 'x' )",
+		"N1 [ matches ( . , '[' ) ]", "count ( N1 [ replace ( . , '*' , '' ) ] )", "matches ( N1 , '[a' ) or N2",
+		// an unknown axis / function / wrong arity that is not the outermost node
+		"N9 :: N1 / N2", "N1 / N9 :: N2", "count ( N1 / N9 :: N2 )", "N1 [ N2 = N9 :: N3 ]", "N1 | N9 :: N2 / N3", "sum ( N9 :: N1 / text ( ) ) + D1", "( N9 :: N1 )", "( N9 :: N1 / N2 ) [ D1 ]",
+		"N9 ( N1 ) = D1", "N1 [ N9 ( ) ]", "( N9 ( N1 ) )", "( count ( ) )", "( ( N1 | N9 :: N2 ) )", "( substring ( N1 ) )", "N9 ( N1 ) | N2", "- N9 ( N1 )", "N1 [ concat ( N2 ) = S1 ]",
 		"D1 . D2", ". D1", "D1 .", "D1 . . D2", "N1 ( P1 )", "@ P1", "N1 :: P1", "$ N1", "$ N1 / N2", "$ P1", "N1 ( ) ( )", "N1 [ ] ", "( )", "[ ]", "N1 / / N2", "N1 | | N2")
 	for i, t := range tpls {
 		ns := []string{"nil", "empty", "p"}[i%3]
